@@ -1425,7 +1425,11 @@ func runTreeMode(cfg treeRunCfg, tr *transcript) {
 	var feats []map[string]bool
 	for _, fam := range cfg.families {
 		cfgs := histCfgsFor(fam, r)
-		for i := 0; i < cfg.hists; i++ {
+		hists := cfg.hists
+		if fam == "alpha" {
+			hists += cfg.hists/2 + 1 // twenty key universes: more of them in every run
+		}
+		for i := 0; i < hists; i++ {
 			hc := cfgs[i%len(cfgs)]
 			if i >= len(cfgs) {
 				hc = pick(r, cfgs)
@@ -1448,6 +1452,14 @@ func runTreeMode(cfg treeRunCfg, tr *transcript) {
 					if strings.HasPrefix(u.name, "U5stems") && (int(cfg.seed)%3 == 0 || u.name != "U5stems11") {
 						h.uni = []universe{u}
 						break
+					}
+				}
+			}
+			if fam == "alpha" && i == 3 {
+				// and one over the byte values at the edges of the range
+				for _, u := range hc.unis {
+					if u.name == "U3edge" || u.name == "U4fan1" {
+						h.uni = append(h.uni, u)
 					}
 				}
 			}
